@@ -6,7 +6,8 @@ C39 — specification side (core Lean only): what the property demands of *obser
                       (`tol = 0` gives the exact statements proved in Props.lean).
 * `agrees`          : "the observed float result is the exact result up to rounding" (second tie).
 * `traceViolations` : the two behavioural clauses on an observed start/finish trace:
-                      no invocation starts while another is in flight; none starts between `stop` and `start`.
+                      no invocation starts while another is in flight; none starts between `stop` and `start`
+                      (also when the `stop` comes from a foreign callback in the very loop iteration of the timer).
 -/
 import TornadoModel.C39.Model
 namespace TornadoModel.C39.Spec
@@ -84,12 +85,15 @@ def overlapIn : List Nat → List Ev → Option Nat
   | fl, .finished i _ :: es => overlapIn (fl.filter (· != i)) es
   | fl, _ :: es => overlapIn fl es
 
-/-- a start between `stop` and the next `start` -/
+/-- a start between `stop` and the next `start`.  In a shared iteration (`iter`) the foreign callback's calls come
+before every invocation the iteration starts — whether it ran before the timer handle or between the handle and the
+body of `_run` — so a `stop()` made there must already prevent that invocation. -/
 def startAfterStop : Bool → List (Op × List Ev) → Option Nat
   | _, [] => none
   | stopped, (op, evs) :: rest =>
     let stopped := match op with
       | .start => false
+      | .iter _ _ acts => actsStopped stopped acts
       | _ => stopped
     match evs.find? (fun e => match e with | .started _ _ => true | _ => false) with
     | some (.started i _) => if stopped then some i else startAfterStop (op == .stop || stopped) rest
